@@ -144,7 +144,7 @@ func (s *BarGraph) writeBarGrouped(idx int, key string, vals ...int64) {
 	}
 
 	var sb strings.Builder
-	sb.WriteString(color.Wrapf(color.Yellow, "%-[2]*[1]s", key, s.maxKeyLength))
+	sb.WriteString(color.Wrap(color.Yellow, padVisible(key, s.maxKeyLength)))
 	sb.WriteString("  ")
 
 	line := s.prefixLines + idx*len(s.subKeys)
@@ -179,7 +179,7 @@ func (s *BarGraph) writeBarStacked(idx int, key string, vals ...int64) {
 	}
 
 	var sb strings.Builder
-	sb.WriteString(color.Wrapf(color.Yellow, "%-[2]*[1]s", key, s.maxKeyLength))
+	sb.WriteString(color.Wrap(color.Yellow, padVisible(key, s.maxKeyLength)))
 	sb.WriteString("  ")
 
 	line := idx + s.prefixLines
